@@ -183,7 +183,8 @@ def poc_fit_constant_line(force, ret_details=False):
         params.add('m', value=(1 - y[x0])/(x.size - x0))
 
         out = lmfit.minimize(residual, params, args=(x, y), method="nelder")
-        if out.success:
+        # a contact point outside of the data means "not found"
+        if out.success and 0 <= int(out.params["x0"]) < force.size:
             cp = int(out.params["x0"])
             if ret_details:
                 details["plot force"] = [x, force]
@@ -274,7 +275,8 @@ def poc_fit_constant_polynomial(force, ret_details=False):
 
         out = lmfit.minimize(residual, params, args=(x, y), method="nelder")
 
-        if out.success:
+        # a contact point outside of the data means "not found"
+        if out.success and 0 <= int(out.params["x0"]) < force.size:
             cp = int(out.params["x0"])
             if ret_details:
                 details["plot force"] = [x, force]
@@ -376,7 +378,8 @@ def poc_fit_line_polynomial(force, ret_details=False):
 
         out = lmfit.minimize(residual, params, args=(x, y), method="nelder")
 
-        if out.success:
+        # a contact point outside of the data means "not found"
+        if out.success and 0 <= int(out.params["x0"]) < force.size:
             cp = int(out.params["x0"])
             if ret_details:
                 details["plot force"] = [x, force]
